@@ -258,7 +258,7 @@ def gen_calls(rng, lat, dim, nu, sites, exact, explicit):
                 c['strength_as_list'] = True     # (array_like strength: a nested list)
             if dim == 1 and rng.random() < 0.3:
                 c['dx'] = dx[0]                  # (documented: for a 1D lattice a single int is fine)
-            elif (not exact) and rng.random() < 0.2 and all(abs(d) < Ls[a] for a, d in enumerate(dx) if wraps[a]):
+            elif (not exact) and rng.random() < 0.5 and any(wraps) and all(abs(d) < Ls[a] for a, d in enumerate(dx) if wraps[a]):
                 # external flux through the periodic directions (coupling_strength_add_ext_flux); zero phase along open ones
                 c['flux'] = [round(rng.uniform(-3, 3), 3) if wraps[a] and rng.random() < 0.8 else 0. for a in range(dim)]
             calls.append(c)
@@ -277,8 +277,10 @@ def gen_calls(rng, lat, dim, nu, sites, exact, explicit):
             for n, nm in enumerate(names):
                 dx = [0] * dim if n == 0 else gen_dx(rng, dim, Ls, bc_open, infinite)
                 ops.append([nm, dx, us[n] if sites[us[n]]['type'] == sites[us[0]]['type'] else us[0]])
-            if all(o[1] == ops[0][1] and o[2] == ops[0][2] for o in ops):
-                continue
+            def wrapped(dx_):
+                return [d % Ls[a] if ((not bc_open[a]) and not (a == 0 and infinite)) else d for a, d in enumerate(dx_)]
+            if all(wrapped(o[1]) == wrapped(ops[0][1]) and o[2] == ops[0][2] for o in ops):
+                continue          # (all operators on one site: refused, "coupling shouldn't be purely onsite")
             fits = True
             for a in range(dim):
                 span = max(o[1][a] for o in ops) - min(o[1][a] for o in ops)
@@ -358,12 +360,14 @@ def gen_calls(rng, lat, dim, nu, sites, exact, explicit):
             if infinite:
                 # the left-most operator lies in the first unit cell
                 mn = min(t[1][0] // Ls[0] for t in term)
+                # (a term of >= 3 sites may lie in any unit cell of the infinite system: it is translated into the first one)
+                mv = rng.choice([-1, 1, 2]) if (len(set(tuple(t[1]) for t in term)) >= 3 and rng.random() < 0.3) else 0
                 for t in term:
-                    t[1][0] -= mn * Ls[0]
-                if dim == 1 and nu == 1 and False:
-                    pass
+                    t[1][0] -= (mn - mv) * Ls[0]
             calls.append({'fn': 'add_local_term', 'strength': rand_strength(rng, None, exact, even, allow_array=False),
                           'term': term, 'plus_hc': plus_hc})
+            if infinite and mv:
+                calls[-1]['unnormalised'] = True
         else:
             # MPS-index level functions (plain tensor products, explicit operator string)
             i = rng.randrange(L)
@@ -491,8 +495,230 @@ def gen_family(rng, fid):
             v = copy.deepcopy(spec)
             v['sort_mpo_legs'] = True
             fam.append({'kind': 'spec', 'spec': v, 'nwin': nwin, 'family': fid, 'variant': 'sort_mpo_legs', 'exact': exact})
+        if rng.random() < 0.5:
+            v = copy.deepcopy(spec)
+            v['via'] = gen_via(rng, v)
+            if rng.random() < 0.25:
+                v['sort_mpo_legs'] = True
+            fam.append({'kind': 'spec', 'spec': v, 'nwin': nwin, 'family': fid, 'variant': 'via-CouplingMPOModel', 'exact': exact})
         return fam
     return []
+
+
+def gen_via(rng, spec):
+    """options of the documented construction route: class Generic(CouplingMPOModel[, NearestNeighborModel]) with init_sites /
+    init_terms and the lattice described by model parameters"""
+    ncalls = len(spec['calls'])
+    return {'lattice_as': rng.choice(['name', 'name', 'class', 'instance']),
+            'open_word': rng.choice(['ladder', 'open']), 'periodic_word': rng.choice(['cylinder', 'periodic']),
+            'bc_x_default': rng.random() < 0.5, 'explicit_plus_hc_default': rng.random() < 0.5,
+            'nn': rng.random() < 0.85,
+            # the last `late` calls are made after the initialisation, followed by init_H_from_terms()
+            'late': rng.randint(1, ncalls - 1) if (ncalls >= 2 and rng.random() < 0.5) else 0,
+            'manual_flag': rng.random() < 0.5}
+
+
+# ------------------------------------------------------------------------------------------
+# option strata: every documented option / boundary value of the add_* calls must occur in some generated model
+# ------------------------------------------------------------------------------------------
+
+def _span(c):
+    if c['fn'] == 'add_multi_coupling':
+        return max(o[1][0] for o in c['ops']) - min(o[1][0] for o in c['ops'])
+    return 0
+
+
+def _calls(spec, fn):
+    return [c for c in spec['calls'] if c['fn'] == fn]
+
+
+def _nsites(spec):
+    return int(np.prod(spec['lattice']['Ls'])) * LATTICES[spec['lattice']['kind']][1]
+
+
+def _centre(spec, c):
+    return c['i'] % _nsites(spec)
+
+
+MULTI_FNS = ('add_multi_coupling', 'add_multi_coupling_term')
+
+
+def _shared_category(spec, first, later, later_fn=None):
+    seen = {}
+    for c in spec['calls']:
+        cat = c.get('category')
+        if cat is None:
+            continue
+        nsites_ = len(set(tuple(t[1]) for t in c['term'])) if c['fn'] == 'add_local_term' else 0
+        three = c['fn'] in MULTI_FNS or nsites_ >= 3
+        kind = 'multi' if three else ('two' if (c['fn'] in ('add_coupling', 'add_coupling_term') or nsites_ == 2) else
+                                      ('onsite' if c['fn'] in ('add_onsite', 'add_onsite_term') else 'other'))
+        if np.ndim(c['strength']['re']) == 0 and c['strength']['re'] == 0 and c['strength']['im'] == 0:
+            continue
+        if kind == later and first in seen.get(cat, []) and later_fn in (None, c['fn']):
+            return True
+        seen.setdefault(cat, []).append(kind)
+    return False
+
+
+STRATA = {
+    'add_multi_coupling:op_string-nontrivial+gap': lambda s: any(c.get('op_string') not in (None, 'Id') and _span(c) >= 2 for c in _calls(s, 'add_multi_coupling')),
+    'add_multi_coupling:op_string-Id': lambda s: any(c.get('op_string') == 'Id' for c in _calls(s, 'add_multi_coupling')),
+    'add_multi_coupling_term:op_string-nontrivial+gap': lambda s: any(any(x != 'Id' for x in c['op_string']) and c['ijkl'][-1] - c['ijkl'][0] >= len(c['ijkl'])
+                                                                      for c in _calls(s, 'add_multi_coupling_term')),
+    'add_multi_coupling_term:switchLR-int': lambda s: any(isinstance(c.get('switchLR'), int) for c in _calls(s, 'add_multi_coupling_term')),
+    'add_multi_coupling_term:switchLR-default': lambda s: any(c.get('switchLR') is None for c in _calls(s, 'add_multi_coupling_term')),
+    'add_coupling_term:op_string-nontrivial': lambda s: any(c.get('op_string') not in (None, 'Id', 'JW') and c['j'] - c['i'] >= 2 for c in _calls(s, 'add_coupling_term')),
+    'add_coupling_term:op_string-JW': lambda s: any(c.get('op_string') == 'JW' and c['j'] - c['i'] >= 2 for c in _calls(s, 'add_coupling_term')),
+    'add_coupling_term:op_string-default': lambda s: any('op_string' not in c for c in _calls(s, 'add_coupling_term')),
+    'add_coupling:op_string-nontrivial': lambda s: any(c.get('op_string') not in (None, 'Id', 'JW') for c in _calls(s, 'add_coupling')),
+    'add_coupling:op_string-JW': lambda s: any(c.get('op_string') == 'JW' for c in _calls(s, 'add_coupling')),
+    'add_coupling:op_string-Id': lambda s: any(c.get('op_string') == 'Id' for c in _calls(s, 'add_coupling')),
+    'add_coupling:dx-scalar': lambda s: any(not isinstance(c['dx'], list) for c in _calls(s, 'add_coupling')),
+    'add_coupling:dx-negative': lambda s: any(min(c['dx'] if isinstance(c['dx'], list) else [c['dx']]) < 0 for c in _calls(s, 'add_coupling')),
+    'add_coupling:dx-multi-cell-infinite': lambda s: s['lattice']['bc_MPS'] == 'infinite' and any(
+        abs((c['dx'] if isinstance(c['dx'], list) else [c['dx']])[0]) > s['lattice']['Ls'][0] for c in _calls(s, 'add_coupling')),
+    'add_coupling:dx-wraps-periodic-finite': lambda s: s['lattice']['bc_MPS'] == 'finite' and any(
+        abs(d) >= L_ for c in _calls(s, 'add_coupling') for d, L_, b in zip(c['dx'] if isinstance(c['dx'], list) else [c['dx']], s['lattice']['Ls'],
+                                                                           s['lattice']['bc'] if isinstance(s['lattice']['bc'], list) else [s['lattice']['bc']]) if b == 'periodic'),
+    'add_coupling:external-flux': lambda s: any(c.get('flux') is not None and any(c['flux']) for c in _calls(s, 'add_coupling')),
+    'add_coupling:strength-array': lambda s: any(np.ndim(c['strength']['re']) >= 1 and np.size(c['strength']['re']) > 1 for c in _calls(s, 'add_coupling')),
+    'add_coupling:strength-list': lambda s: any(c.get('strength_as_list') for c in _calls(s, 'add_coupling')),
+    'add_onsite:strength-zero': lambda s: any(not np.any(c['strength']['re']) and not np.any(c['strength']['im']) for c in _calls(s, 'add_onsite')),
+    'add_onsite:strength-array': lambda s: any(np.size(c['strength']['re']) > 1 for c in _calls(s, 'add_onsite')),
+    'centered:negative-i': lambda s: any(c['i'] < 0 for c in _calls(s, 'add_exponentially_decaying_centered_terms')),
+    'centered:plus_hc': lambda s: any(c.get('plus_hc') for c in _calls(s, 'add_exponentially_decaying_centered_terms')),
+    'centered:explicit_plus_hc': lambda s: s.get('explicit_plus_hc') and bool(_calls(s, 'add_exponentially_decaying_centered_terms')),
+    'centered:op_string': lambda s: any(c.get('op_string') not in (None, 'Id') for c in _calls(s, 'add_exponentially_decaying_centered_terms')),
+    'centered:first-subsite': lambda s: any(_centre(s, c) == (c.get('subsites') or [0])[0] for c in _calls(s, 'add_exponentially_decaying_centered_terms')),
+    'centered:last-subsite': lambda s: any(_centre(s, c) == (c.get('subsites') or [_nsites(s) - 1])[-1]
+                                           for c in _calls(s, 'add_exponentially_decaying_centered_terms')),
+    'exp:complex-lambda+plus_hc': lambda s: any(c['lambda']['dtype'] == 'complex' and c.get('plus_hc') for c in _calls(s, 'add_exponentially_decaying_coupling')),
+    'exp:lambda-array': lambda s: any(np.size(c['lambda']['re']) > 1 for c in _calls(s, 'add_exponentially_decaying_coupling')),
+    'exp:op_string': lambda s: any(c.get('op_string') not in (None, 'Id') for c in _calls(s, 'add_exponentially_decaying_coupling')),
+    'exp:subsites_start': lambda s: any('subsites_start' in c for c in _calls(s, 'add_exponentially_decaying_coupling')),
+    'exp:infinite': lambda s: s['lattice']['bc_MPS'] == 'infinite' and bool(_calls(s, 'add_exponentially_decaying_coupling')),
+    'exp:fermionic': lambda s: any(c['op_i'] in ('C', 'Cd', 'Cu', 'Cdu', 'Cdd') for c in _calls(s, 'add_exponentially_decaying_coupling')),
+    'category:two-site-then-add_multi_coupling': lambda s: _shared_category(s, 'two', 'multi', 'add_multi_coupling'),
+    'category:two-site-then-add_multi_coupling_term': lambda s: _shared_category(s, 'two', 'multi', 'add_multi_coupling_term'),
+    'category:two-site-then-add_local_term(3 sites)': lambda s: _shared_category(s, 'two', 'multi', 'add_local_term'),
+    'centered:subsites-with-gap-left-and-right': lambda s: any(
+        c.get('subsites') and any(q not in c['subsites'] for q in range(c['subsites'][0], _centre(s, c)))
+        and any(q not in c['subsites'] for q in range(_centre(s, c), c['subsites'][-1])) for c in _calls(s, 'add_exponentially_decaying_centered_terms')),
+    'add_local_term:first-site-outside-first-unit-cell': lambda s: any(c.get('unnormalised') for c in _calls(s, 'add_local_term')),
+    'category:multi-site-then-two-site': lambda s: _shared_category(s, 'multi', 'two'),
+    'category:shared-onsite': lambda s: _shared_category(s, 'onsite', 'onsite'),
+    'plus_hc:default-omitted': lambda s: any('plus_hc' not in c for c in s['calls']),
+    'plus_hc+explicit_plus_hc': lambda s: s.get('explicit_plus_hc') and any(c.get('plus_hc') for c in s['calls']),
+    'no-plus_hc+explicit_plus_hc': lambda s: s.get('explicit_plus_hc') and any(not c.get('plus_hc') for c in s['calls']),
+    'cancelling-terms': lambda s: bool(s.get('has_cancelling_pair')),
+    'tiny-long-range-term': lambda s: bool(s.get('has_tiny_term')),
+    'tol_zero-given': lambda s: s.get('tol_zero') is not None,
+    'add_local_term:two-operators-on-one-site': lambda s: any(len(set(tuple(t[1]) for t in c['term'])) < len(c['term']) for c in _calls(s, 'add_local_term')),
+    'add_local_term:unordered': lambda s: any(len(c['term']) >= 2 for c in _calls(s, 'add_local_term')),
+}
+
+
+def negated(st):
+    return {'re': (-np.array(st['re'])).tolist(), 'im': (-np.array(st['im'])).tolist(), 'dtype': st['dtype']}
+
+
+def gen_option_specs(rng, per_stratum):
+    """for every stratum of STRATA `per_stratum` models that contain it (rejection sampling of the general generator on small
+    chains / ladders, where ranges >= 2 fit); the strata 'cancelling-terms', 'tiny-long-range-term' and 'tol_zero-given' are
+    constructed: a copy of one call with the negated strength / a long-range coupling with strength 1e-17 is appended"""
+    cases = []
+    n = 0
+    for name, pred in STRATA.items():
+        for rep in range(per_stratum):
+            found = None
+            for _try in range(3000):
+                infinite = rng.random() < 0.3 or name in ('exp:infinite', 'add_coupling:dx-multi-cell-infinite')
+                if name.startswith('centered') or 'finite' in name.split('-')[-1:]:
+                    infinite = False
+                kind = rng.choice(['Chain', 'Chain', 'Chain', 'Ladder'])
+                nu = LATTICES[kind][1]
+                if kind == 'Chain':
+                    Ls = [rng.choice([2, 3]) if infinite else rng.choice([3, 4, 5, 6])]
+                else:
+                    Ls = [1 if infinite else rng.choice([2, 3])]
+                nwin = 2 if infinite else 1
+                N = Ls[0] * nu * nwin
+                bc = 'periodic' if (infinite or rng.random() < 0.3) else 'open'
+                lat = {'kind': kind, 'Ls': Ls, 'bc': bc, 'bc_MPS': 'infinite' if infinite else 'finite'}
+                sites = gen_sites(rng, nu, N)
+                if sites is None:
+                    continue
+                exact = rng.random() < 0.4
+                explicit = rng.random() < 0.3
+                calls = gen_calls(rng, lat, 1, nu, sites, exact, explicit)
+                spec = {'lattice': lat, 'sites': sites, 'explicit_plus_hc': explicit, 'calls': calls, 'psi_seed': rng.randrange(10 ** 6)}
+                if name in ('cancelling-terms', 'tiny-long-range-term', 'tol_zero-given'):
+                    cand = [c for c in calls if c['fn'] in ('add_coupling', 'add_multi_coupling', 'add_onsite', 'add_coupling_term', 'add_local_term')
+                            and c.get('flux') is None]
+                    if len(calls) < 2 or not cand or infinite and name != 'cancelling-terms':
+                        continue
+                    if name == 'cancelling-terms':
+                        c = copy.deepcopy(rng.choice(cand))
+                        c['strength'] = negated(c['strength'])
+                        calls.insert(rng.randrange(len(calls) + 1), c)
+                        spec['has_cancelling_pair'] = True
+                    else:
+                        # a coupling over the whole chain with a strength below the zero tolerance: to be ignored everywhere
+                        T = SITES[sites[0]['type']]
+                        pr = T['pairs0'][-1] if T['pairs0'][-1][0] not in T['fer'] else ('N', 'N')
+                        if Ls[0] < 3 or len(set(x['type'] for x in sites)) > 1:
+                            continue
+                        tz = None if name == 'tiny-long-range-term' else 1e-12
+                        calls.append({'fn': 'add_coupling', 'strength': enc(np.array(1e-17 if tz is None else 3e-14), 'float'), 'u1': 0, 'op1': pr[0],
+                                      'u2': 0, 'op2': pr[1], 'dx': [Ls[0] - 1]})
+                        spec['has_tiny_term'] = True
+                        spec['tol_zero'] = tz
+                        exact = False
+                if name.startswith('category:'):
+                    for c in calls:
+                        if not c['fn'].startswith('add_exponentially'):
+                            c['category'] = 'cat0'
+                if name == 'centered:subsites-with-gap-left-and-right':
+                    cen = _calls(spec, 'add_exponentially_decaying_centered_terms')
+                    if not cen or _nsites(spec) < 5:
+                        continue
+                    ic = rng.randint(2, _nsites(spec) - 3)
+                    cen[0]['subsites'] = [0, ic, _nsites(spec) - 1]
+                    cen[0]['i'] = ic - rng.choice([0, _nsites(spec)])
+                if not calls or not pred(spec):
+                    continue
+                found = (spec, nwin, exact)
+                break
+            if found is None:
+                continue
+            spec, nwin, exact = found
+            n += 1
+            fid = 'O%d' % n
+            cases.append({'kind': 'spec', 'spec': spec, 'nwin': nwin, 'family': fid, 'variant': 'base', 'exact': exact, 'stratum': name})
+            v = copy.deepcopy(spec)
+            v['explicit_plus_hc'] = not spec['explicit_plus_hc']
+            if not name.startswith('centered:explicit') and 'explicit_plus_hc' not in name:
+                cases.append({'kind': 'spec', 'spec': v, 'nwin': nwin, 'family': fid, 'variant': 'explicit_plus_hc-toggled', 'exact': exact, 'stratum': name})
+            if spec.get('tol_zero') is None and rng.random() < 0.5:
+                v = copy.deepcopy(spec)
+                v['via'] = gen_via(rng, v)
+                cases.append({'kind': 'spec', 'spec': v, 'nwin': nwin, 'family': fid, 'variant': 'via-CouplingMPOModel', 'exact': exact, 'stratum': name})
+    return cases
+
+
+def strata_counts(cases):
+    out = {k: 0 for k in STRATA}
+    for c in cases:
+        if c.get('kind') != 'spec':
+            continue
+        for k, pred in STRATA.items():
+            try:
+                if pred(c['spec']):
+                    out[k] += 1
+            except Exception:
+                pass
+    return out
 
 
 # ------------------------------------------------------------------------------------------
@@ -533,6 +759,21 @@ def gen_predefined(rng, models, per_class):
                 geo['explicit_plus_hc'] = True
             if rng.random() < 0.2:
                 geo['sort_mpo_legs'] = True
+            if 'phi_ext' in num:
+                # (external flux: one phase per lattice direction, non-zero only around the cylinder)
+                if geo['bc_y'] == 'cylinder':
+                    num['phi_ext'] = [0.0, num['phi_ext']]
+                else:
+                    del num['phi_ext']
+            if rng.random() < 0.7:
+                geo['q'] = rng.choice([2, 3, 4])           # (clock models)
+            # documented options of CouplingMPOModel.init_lattice: order of the sites, another lattice (name)
+            if rng.random() < 0.3:
+                geo['order'] = rng.choice(['default', 'snake', 'Cstyle', 'Fstyle', 'folded'])
+            if rng.random() < 0.25:
+                geo['lattice'] = rng.choice(['Chain', 'Ladder', 'Square', 'Triangular', 'Honeycomb'])
+                geo['Ly'] = 2
+                geo['L'] = min(geo['L'], 3)
             for cv in CONS_VARIANTS:
                 params = dict(num)
                 params.update(geo)
@@ -845,6 +1086,29 @@ def check_extra(r, dense, Href, Href_bond, mats, tol, hermitian, scale):
                             bad = '<psi|H|psi> or |P H psi| in the sector differ from the reference operator'
                 if bad:
                     problems.append(('C10:' + nm, 'ExactDiag(charge_sector=%r) built from %s: full_H %s' % (r['sector'], 'bonds' if sfx else 'the MPO', bad)))
+    if 'psi' in r and not finite and 'bond_energies' in mats and 'H_bond_none' in r:
+        # product state of the infinite system: E_bond[j] is the energy of bond (j-1, j), H_bond[j] acts on sites (j-1, j)
+        p1 = r['psi']['p1']
+        Eb = np.asarray(mats['bond_energies']).reshape(-1)
+        exp_, alt_ = [], []
+        for j in range(L):
+            if r['H_bond_none'][j]:
+                exp_.append(0.0)
+                alt_.append(0.0)
+                continue
+            hb = mats['Hb/%d' % j]
+            dl, dr = r['dims'][(j - 1) % L], r['dims'][j]
+            k = p1[(j - 1) % L] * dr + p1[j]
+            exp_.append(complex(hb[k, k]))
+            # (the known defect: H_bond[j] evaluated on the sites (j, j+1) instead of (j-1, j))
+            k2 = p1[j] * r['dims'][(j + 1) % L] + p1[(j + 1) % L]
+            alt_.append(complex(hb[k2, k2]) if (dl, dr) == (r['dims'][j], r['dims'][(j + 1) % L]) else np.nan)
+        if len(Eb) != L or float(np.max(np.abs(Eb - np.array(exp_)))) > tol:
+            key = 'C10:bond_energies'
+            if len(Eb) == L and not np.any(np.isnan(alt_)) and float(np.max(np.abs(Eb - np.array(alt_)))) <= tol:
+                key = 'C10:NearestNeighborModel.bond_energies:infinite-shifted-by-one-site'
+            problems.append((key, 'bond_energies(psi) of the product state %r of the infinite system = %r, expected E_bond[j] = <psi|H_bond[j]|psi> on '
+                             'sites (j-1, j) = %r' % (p1, Eb.tolist(), exp_)))
     acc = r.get('accessors')
     if acc and 'termlist' in r:
         tl = r['termlist']
@@ -906,6 +1170,10 @@ def check_extra(r, dense, Href, Href_bond, mats, tol, hermitian, scale):
                 k = sorted(bad)[0]
                 problems.append(('C10:ExponentiallyDecayingTerms.to_TermList:infinite', 'exp_decaying_terms.to_TermList(cutoff=%g, bc="infinite"): term %r has '
                                  'strength %r, expected %r (%d terms differ)' % (cut, k, got.get(k), want.get(k), len(bad))))
+        if 'tl_from_lattice_unit' in acc and r.get('tl_from_lattice_expected') is not None and not r.get('tl_shifted'):
+            if not same_list([[t_, [1.0, 0.0]] for t_, _ in r['tl_from_lattice_expected']], acc['tl_from_lattice_unit']):
+                problems.append(('C10:TermList.from_lattice_locations', 'TermList.from_lattice_locations(lat, terms) (default strength) = %r'
+                                 % (acc['tl_from_lattice_unit'],)))
         if 'tl_from_lattice' in acc and r.get('tl_from_lattice_expected') is not None:
             if not same_list(r['tl_from_lattice_expected'], acc['tl_from_lattice']):
                 problems.append(('C10:TermList.from_lattice_locations', 'TermList.from_lattice_locations(...) = %r, expected %r'
@@ -982,7 +1250,9 @@ def check_case(ctx, case, r, fam_store):
             # A specification is outside the property when its terms sum to exactly zero (all strengths cancel, or an
             # exponentially decaying coupling restricted to a single site): decided by the independent dense semantics of the
             # calls AND by the implementation's own (zero-stripped) containers being empty.
-            zero = zero_hamiltonian(case, r)
+            late_ = ((case['spec'].get('via') or {}).get('late') or 0) if 'init_H_from_terms' not in r['error'] else 0
+            zcase = case if not late_ else dict(case, spec=dict(case['spec'], calls=case['spec']['calls'][:len(case['spec']['calls']) - late_]))
+            zero = zero_hamiltonian(zcase, r)
             if zero is True:
                 ctx.count('models', case['spec'], nontrivial=False)
                 ctx.cov['zero_hamiltonian_specs'] = ctx.cov.get('zero_hamiltonian_specs', 0) + 1
@@ -1018,6 +1288,28 @@ def check_case(ctx, case, r, fam_store):
             Href = 0.5 * (Href + Href.conj().T)
             onsite = {k: 0.5 * (m + m.conj().T) for k, m in onsite.items()}
         scale = max(1.0, float(np.max(np.abs(Href))) if Href.size else 1.0)
+        if Hc is not None and maxdiff(Hc, Href) > TOL * scale:
+            # known cause: add_multi_coupling drops an explicitly given op_string when no operator needs a Jordan-Wigner string.
+            # Then all further representations are compared with what the containers hold (the calls read with op_string='Id')
+            alt = copy.deepcopy(case['spec'])
+            hit = [c_ for c_ in alt['calls'] if c_['fn'] == 'add_multi_coupling' and c_.get('op_string') not in (None, 'Id')]
+            for c_ in hit:
+                c_['op_string'] = 'Id'
+            if hit:
+                Ha, onsite_a, _ = O.expected_from_spec(alt, dense)
+                if alt.get('explicit_plus_hc'):
+                    Ha = 0.5 * (Ha + Ha.conj().T)
+                    onsite_a = {k: 0.5 * (m + m.conj().T) for k, m in onsite_a.items()}
+                if maxdiff(Hc, Ha) <= TOL * scale:
+                    problems.append(('C10:add_multi_coupling:op_string-ignored-without-JW-operators',
+                                     'add_multi_coupling(..., op_string=%r) with operators that need no Jordan-Wigner string stores the terms with '
+                                     'op_string "Id" (documented: the given operator is used between the operators): containers differ from '
+                                     'the calls by %.3e' % (sorted(set(c_2.get('op_string') for c_2 in case['spec']['calls'] if c_2['fn'] == 'add_multi_coupling'
+                                                                       and c_2.get('op_string') not in (None, 'Id'))), maxdiff(Hc, Href))))
+                    case = dict(case, spec=alt)
+                    Href, onsite = Ha, onsite_a
+                    Hspec_hermitian = maxdiff(Href, Href.conj().T) <= TOL * max(1.0, float(np.max(np.abs(Href))) if Href.size else 1.0)
+                    scale = max(1.0, float(np.max(np.abs(Href))) if Href.size else 1.0)
         if Hc is not None and maxdiff(Hc, Href) > TOL * scale:
             problems.append(('C10:containers', 'term containers (onsite/coupling/multi/exp terms with their operator strings) differ from the '
                              'operator the add_* calls stand for by %.3e' % maxdiff(Hc, Href)))
@@ -1104,6 +1396,17 @@ def check_case(ctx, case, r, fam_store):
     cmp('H_enlarged', Href, what='MPO after enlarge_mps_unit_cell(2)')
     cmp('H_enlarged_bond', Href_bond, what='H_bond after enlarge_mps_unit_cell(2)')
     plain_strings = set(r.get('termlist_strings') or []) <= {'Id', 'JW'}
+    oc = r.get('orig_after_enlarging_copy')
+    if oc and (oc['lat_N_sites'] != oc['mpo_L'] or oc['copy_lat_N_sites'] != oc['copy_mpo_L']):
+        problems.append(('C10:Model.copy-enlarge_mps_unit_cell:shared-lattice',
+                         'after m2 = m.copy(); m2.enlarge_mps_unit_cell(2) the ORIGINAL model has a lattice of %d sites but an MPO of %d sites '
+                         '(copy: %d / %d): the shallow copy shares the lattice, which is enlarged in place'
+                         % (oc['lat_N_sites'], oc['mpo_L'], oc['copy_lat_N_sites'], oc['copy_mpo_L'])))
+    if r.get('enlarged_then_segment_L') == N:
+        cmp('H_enlarged_then_segment', Href, what='MPO of enlarge_mps_unit_cell(%d) followed by extract_segment()' % (N // r['L']))
+    cmp('H_group_then_ed', Href, what='ExactDiag of the model after group_sites(2)')
+    cmp('H_group_then_np', Href, what='get_numpy_Hamiltonian of the MPO model after group_sites(2)')
+    cmp('H_ed_from_infinite_enlarge', Href, what='ExactDiag.from_infinite_model(model, enlarge=%d)' % (N // r['L']))
     cmp('H_ed_sparse', Href, what='ExactDiag(model, sparse=True).build_full_H_from_mpo')
     cmp('H_bond_from_MPOModel_cls', Href_bond, what='NearestNeighborModel.from_MPOModel(model).H_bond')
     cmp('H_enlarged3', Href, what='MPO after enlarge_mps_unit_cell(3)')
@@ -1115,6 +1418,7 @@ def check_case(ctx, case, r, fam_store):
         problems.append(('C10:H_segment_enlarge', 'extract_segment(enlarge=%d) has %d sites, expected %d' % (N // r['L'], r['segment_enlarge_L'], N)))
     if is_spec and (r.get('accessors') or {}).get('tl_from_lattice') is not None:
         sh_ = case['spec'].get('tl_shift') or [0] * (geo.dim + 1)
+        r['tl_shifted'] = any(sh_)
         r['tl_from_lattice_expected'] = [
             [[[o, geo.mps_index([x_ + d_ for x_, d_ in zip(idx[:-1], sh_[:-1])], idx[-1] + sh_[-1])] for o, idx in c_['term']],
              [float(np.real(O.decode_strength(c_['strength']))), float(np.imag(O.decode_strength(c_['strength'])))]]
@@ -1268,7 +1572,12 @@ def check_case(ctx, case, r, fam_store):
         for t_ in (r.get('multi') or []):
             ks_ = [k_ for k_, o_ in t_['word'] if o_ != 'Id']
             nn = nn and len(t_['word']) == 2 and t_['word'][1][0] == t_['word'][0][0] + 1
-        if nn and (r.get('coupling') or r.get('multi') or r.get('onsite')):
+        if nn and r['no_bond'].startswith('AssertionError') and any(
+                t_['left'] and not t_['right'] and t_['op_sw'] == t_['left'][-1][2] and t_['op_sw'] != 'Id' for t_ in (r.get('multi') or [])):
+            problems.append(('C10:MultiCouplingTerms.to_TermList:switch-operator-named-like-op_string',
+                             'calc_H_bond raised (%s): MultiCouplingTerms.to_TermList drops the operator on the switchLR site of a stored term '
+                             'because its name equals the operator string left of it' % r['no_bond']))
+        elif nn and (r.get('coupling') or r.get('multi') or r.get('onsite')):
             problems.append(('C10:calc_H_bond:raises', 'calc_H_bond raised (%s) although all terms are on-site or nearest-neighbour' % r['no_bond']))
     # every representation must have been produced
     # consequences of MPO.sort_legcharges (finding F112): a model built with sort_mpo_legs=True on an infinite lattice with a
@@ -1276,6 +1585,9 @@ def check_case(ctx, case, r, fam_store):
     # sorting passes test_sanity, the sorted one does not); every contraction across the unit-cell boundary then raises
     sorted_model = bool((case.get('spec') or case.get('params') or {}).get('sort_mpo_legs'))
     broken_by_sort = (sorted_model and not finite and not r.get('trivial_shift', True) and r.get('sort_legs_breaks_sanity') is True)
+    seg_ = (case.get('spec') or case).get('segment')
+    seg_ = r.get('segment') if seg_ == 'auto' else seg_
+    seg_len = (seg_[1] - seg_[0] + 1) if seg_ else None
     for nm, e in r['errors'].items():
         if nm.startswith('mpo_onsite/'):
             continue
@@ -1293,6 +1605,17 @@ def check_case(ctx, case, r, fam_store):
             key = 'C10:MPO.dagger:infinite-nontrivial-charge-shift'
         if nm in ('H_bond_from_plain_MPOModel', 'H_bond_from_mpo') and "no attribute 'explicit_plus_hc'" in e:
             key = 'C10:MPOModel.calc_H_bond_from_MPO:explicit_plus_hc-attribute'
+        if nm == 'bond_energies' and not finite and ('incompatible' in e or 'shape' in e or 'dimension' in e.lower()) and (
+                len(set(r['dims'][:r['L']])) > 1 or len(set(str(q_) for q_ in (r.get('qflat') or [])[:r['L']])) > 1):
+            # (H_bond[j] evaluated on the sites (j, j+1): the legs do not fit when the sites of the unit cell differ)
+            key = 'C10:NearestNeighborModel.bond_energies:infinite-shifted-by-one-site'
+        if nm == 'bond_energies' and "'NoneType' object has no attribute" in e and any(r.get('H_bond_none', [])[(1 if finite else 0):]):
+            key = 'C10:NearestNeighborModel.bond_energies:None-bond'
+        if nm == 'H_ed_from_infinite' and ('full_H has 3 legs' in e or "Label not found: 'wR'" in e) and seg_len == 1:
+            key = 'C10:ExactDiag.build_full_H_from_mpo:single-site'
+        if (nm in ('H_segment', 'H_segment_enlarge', 'H_ed_from_infinite', 'H_ed_from_infinite_enlarge') and 'incompatible LegCharge' in e
+                and not r.get('trivial_shift', True) and not finite and (seg_ is None or nm.endswith('enlarge') or seg_[1] >= r['L'])):
+            key = 'C10:MPO.extract_segment:charge-shift-beyond-first-unit-cell'
         if broken_by_sort and 'incompatible LegCharge' in e:
             key = 'C10:MPO.sort_legcharges:infinite-nontrivial-charge-shift'
         problems.append((key, 'representation %s raised %s' % (nm, e)))
@@ -1656,6 +1979,9 @@ def gen_split_cases(rng, n):
         st = rng.choice([[1, 0], [2, 0], [-3, 0], [2, 1], [0, -1]])
         out.append({'L': L, 'ijkl': ijkl, 'ops': ops, 'op_string': op_string, 'switchLR': sw,
                     'strength': {'re': st[0], 'im': st[1], 'dtype': 'complex' if st[1] else 'int'}})
+        if nops == 2 and isinstance(op_string, str):
+            # (MultiCouplingTerms.add_coupling_term(..., switchLR) is the two-site front end of add_multi_coupling_term)
+            out[-1]['via_add_coupling_term'] = True
     return out
 
 
@@ -1697,6 +2023,12 @@ def main(ctx):
         cases.append(c['case'])
     for fid in range(nfam):
         cases.extend(gen_family(rng, 'F%d' % fid))
+    if not ctx.thorough():
+        # quick tier: the additional accessors (wave functions, charge sectors, bond energies, non-default grouping, ...) on the
+        # base and CouplingMPOModel variants of every family and on half of the other variants
+        for c in cases:
+            if c.get('kind') == 'spec' and c.get('variant') not in ('base', 'via-CouplingMPOModel') and 'want' not in c and rng.random() < 0.5:
+                c['want'] = ['bond', 'exporters', 'convert', 'options']
     # predefined models
     models, err = common.run_impl('c10_impl.py', {'kind': 'list_models'})
     if err:
@@ -1709,17 +2041,27 @@ def main(ctx):
         # (generated last: the random sequences of the older streams stay as they were)
         cases.extend(gen_tie_specs(rng, ctx.pick(90, 600), ctx.pick(70, 500)))
         cases.extend(gen_termlist_specs(rng, ctx.pick(80, 600)))
+        cases.extend(gen_option_specs(rng, ctx.pick(1, 5)))
     # ---- implementation
     nchunk = common.NPROC
     order = list(range(len(cases)))
     chunks = [order[i::nchunk] for i in range(nchunk)]
-    res = common.run_impl_parallel('c10_impl.py', [{'cases': [cases[i] for i in ch]} for ch in chunks if ch], timeout=1500)
+    res = common.run_impl_parallel('c10_impl.py', [{'cases': [cases[i] for i in ch], 'trace': True} for ch in chunks if ch], timeout=1500)
     results = [None] * len(cases)
+    trace_lines, trace_opts = {}, {}
+
+    def merge_trace(tr):
+        for f_, ls_ in (tr.get('lines') or {}).items():
+            trace_lines.setdefault(f_, set()).update(ls_)
+        for q_, d_ in (tr.get('options') or {}).items():
+            for k_, vs_ in d_.items():
+                trace_opts.setdefault(q_, {}).setdefault(k_, set()).update(vs_)
     for ch, (r, err) in zip([c for c in chunks if c], res):
         if err:
             ctx.fail('correspondence', 'implementation runner failed: ' + err[-600:], None)
             continue
-        for i, x in zip(ch, r):
+        merge_trace(r.get('trace') or {})
+        for i, x in zip(ch, r['results']):
             results[i] = x
     # ---- oracle + literals
     fam_store = {}
@@ -1805,10 +2147,13 @@ def main(ctx):
     nsplit = 0
     if nfam or (replay or {}).get('stream') == 'c10_split':
         scases = [replay['args']] if (replay or {}).get('stream') == 'c10_split' else gen_split_cases(rng, ctx.pick(200, 300))
-        sres, err = common.run_impl('c10_impl.py', {'kind': 'split_terms', 'cases': scases})
+        sres, err = common.run_impl('c10_impl.py', {'kind': 'split_terms', 'cases': scases, 'trace': True})
         if err:
             ctx.fail('correspondence', 'c10_split: runner failed: ' + err[-400:], None)
             sres = []
+        else:
+            merge_trace(sres.get('trace') or {})
+            sres = sres['results']
         slits, sidx = [], []
         for n, (c, res) in enumerate(zip(scases, sres)):
             sl = split_literal(c, res)
@@ -1831,6 +2176,31 @@ def main(ctx):
             for i, _ in enumerate(slits):
                 ctx.count('c10_split', ['c10_split', scases[sidx[i]]], nontrivial=True)
             nsplit = len(slits)
+    # ---- coverage audit: public functions / branches / options of the anchored source files reached by the streams above
+    if nfam:
+        import c10_cov
+        try:
+            tab, unclassified, summ = c10_cov.table(common.REPO, {f_: sorted(v_) for f_, v_ in trace_lines.items()})
+            otab, stuck = c10_cov.option_table(common.REPO, {q_: {k_: sorted(v_) for k_, v_ in d_.items()} for q_, d_ in trace_opts.items()})
+            strata = strata_counts(cases)
+            ctx.cov['api_coverage'] = {'summary': {k_: v_ for k_, v_ in summ.items() if k_ != 'unreached_branches'},
+                                       'unreached_branches': summ['unreached_branches'],
+                                       'items': {k_: ('excluded: ' + v_['excluded']) if ('excluded' in v_ and not v_['reached']) else v_['lines']
+                                                 for k_, v_ in tab.items()}}
+            ctx.cov['option_coverage'] = otab
+            ctx.cov['option_strata'] = strata
+            for name in unclassified:
+                ctx.fail('correspondence', 'coverage: the public function %s of the anchored source files is neither reached by any stream nor '
+                         'classified as outside the property (harness/c10_cov.py EXCLUDED)' % name, {'stream': 'coverage', 'item': name})
+            for name in stuck:
+                ctx.fail('correspondence', 'coverage: the optional parameter %s was never given a non-default value by any stream and is not '
+                         'classified (harness/c10_cov.py EXCLUDED_OPTIONS)' % name, {'stream': 'coverage', 'item': name})
+            for name, n_ in strata.items():
+                if n_ == 0:
+                    ctx.fail('correspondence', 'coverage: no generated model contains the option stratum %r' % name, {'stream': 'coverage', 'item': name})
+        except Exception:
+            import traceback
+            ctx.fail('correspondence', 'coverage table crashed: ' + traceback.format_exc()[-600:], {'stream': 'coverage'})
     ctx.cov['traces_validated_against_impl'] = len(build_cases) + len(bm_cases) + len(den_cases) + len(bond_cases) + len(exp_cases) + nsplit
     ctx.cov['c10_bond_cases'] = len(bond_cases)
     ctx.cov['c10_expdecay_cases'] = len(exp_cases)
@@ -1846,6 +2216,18 @@ def main(ctx):
         'C10 termlist: a TermList stores no operator strings (documented); the sites between two operators of a term are read as JW when '
         'an odd number of operators to their left anticommutes with the local JW, as identity otherwise',
         'local operator matrices and Jordan-Wigner flags are taken from tenpy.networks.site (property C12)',
+        'C10 explicit operator strings: op_string=None / "JW" (two fermionic operators) of add_coupling is the operator product with '
+        'Jordan-Wigner strings; any other explicit op_string (add_coupling, add_multi_coupling with operators that need no string, '
+        'add_coupling_term, add_multi_coupling_term, exponentially decaying couplings) is the plain tensor product with that operator on '
+        'the sites between the operators; explicit strings are drawn only for operators without Jordan-Wigner string (except "JW" '
+        'itself); models with other strings than Id / JW have no faithful TermList (it stores no strings): their term list is not compared',
+        'C10 external flux: coupling_strength_add_ext_flux multiplies the coupling op1(x) op2(x + dx) by exp(-i phase[a] w) where w = '
+        'floor((x[a] + dx[a]) / L[a]) counts the crossings of the periodic boundary (|dx[a]| < L[a], no flux along the infinite direction)',
+        'C10 ExactDiag(charge_sector): the order of the basis states inside a sector is not documented; the block is compared through '
+        'trace, norm, spectrum (Hermitian case) and through <psi|H|psi>, |P H psi| of a state of that sector',
+        'C10 coverage exclusions: see harness/c10_cov.py (EXCLUDED, EXCLUDED_OPTIONS, EXCLUDED_BRANCHES) - serialisation, plotting, '
+        'eigen-decompositions, memory heuristics, lattice wrappers (Helical / Irregular / MultiSpecies: C19), size guard max_size, '
+        'numerical zero thresholds of the bond <-> MPO conversions, warning branches for documented misuse',
         'C10 excluded: model specifications whose terms sum to exactly the zero operator (strengths of several calls cancel, or an '
         'exponentially decaying coupling on a single site): the zero operator has no MPO graph and MPOGraph.build_MPO refuses it with '
         'ValueError "can\'t determine ... charges"; decided per case by the dense semantics of the calls (all terms of the first unit '
@@ -1867,5 +2249,12 @@ RULE = ('models: random coupling models (chain/ladder/square/triangular/honeycom
         'window against the reference operator, re-built into an MPO with MPOGraph.from_term_list (models without Jordan-Wigner operators), '
         'and word for word against the term containers; extra models with multi-site couplings on infinite chains/ladders whose terms reach '
         'beyond the first unit cell; '
-        'predefined: every model class of tenpy.models x parameter sets x conserve options; c10_build / c10_build_multi / c10_denote / c10_bond / '
+        'option strata (evidence option_strata): for each of the named combinations of add_* options / boundary values at least one model '
+        '(plus its explicit_plus_hc-toggled and CouplingMPOModel variants) is generated by construction; every family also as a generic '
+        'CouplingMPOModel subclass built from model parameters, with terms added after the initialisation and a second init_H_from_terms; '
+        'additional accessors per model (wave-function exporter, ExactDiag charge sectors / sparse / from_infinite_model / matvec, bond '
+        'energies, non-default group_sites / enlarge / extract_segment arguments, chained operations, TermList and container accessors); '
+        'coverage (evidence api_coverage / option_coverage): lines of the anchored sources executed in the runner and argument values '
+        'of every public function with optional parameters, public names / options neither reached nor classified are failures; '
+        'predefined: every model class of tenpy.models x parameter sets (incl. order / lattice / external flux) x conserve options; c10_build / c10_build_multi / c10_denote / c10_bond / '
         'c10_expdecay / c10_split: Coq evaluations (model recomputes what the implementation returned).')
